@@ -24,32 +24,115 @@
          still offered - the loop ranges over the precomputed slice.
 
     RemoveUnminedTx is [remove_conflict] (recursive removal of the unmined
-    spenders of every output, then of the transaction itself). *)
-From stdpp Require Import gmap list numbers sorting.
-From Coq Require Import ZArith NArith.
+    spenders of every output, then of the transaction itself).
+
+    The answers.  SendRawTransaction of a chain.Interface returns nil or an
+    error; publishTransaction looks at the error only through
+    errors.Is(rpcErr, chain.X).  An answer of the model is therefore: no
+    error; an error that Is one exported sentinel of package chain
+    ([ASentinel name] - plain or wrapped with %w makes no difference to
+    errors.Is); or an error that Is none of them ([AReject]).  [AInMempool],
+    [AKnown], [AConfirmed] are the three classes the property text names
+    besides acceptance and rejection; [sentinel_class] says to which class the
+    property assigns each sentinel.  The list [sentinel_classes] is written
+    by hand and must list EVERY exported sentinel of package chain: the list
+    regenerated from the source is compared with it (Properties/C20.v), so a
+    new sentinel breaks an obligation until it is classified here.
+
+    The error mapping.  Every backend's SendRawTransaction passes the node's
+    error through MapRPCErr (chain/btcd.go, bitcoind_client.go, neutrino.go):
+    the text is normalised ('-' -> ' ', lower case) and searched for the
+    normalised keys of the tables of chain/errors.go ([match_err_str] =
+    matchErrStr).  [map_candidates] is the set of sentinels MapRPCErr can
+    return for a text (Go iterates BtcdErrMap and friends in map order, so
+    when several keys occur in a text any of them may win; bitcoind's loop
+    over RPCErr(0..errSentinel) is ordered). *)
+From stdpp Require Import gmap list numbers sorting strings.
+From Coq Require Import ZArith NArith Strings.String Strings.Ascii.
 From Verif Require Import Tx.Store Tx.Ledger Tx.Hist.
 From Verif Require Tx.Kahn.
 Local Open Scope Z_scope.
 
-(** Answer classes of the backend's SendRawTransaction as [publishTransaction]
-    distinguishes them (chain/errors.go). *)
+(** Answers of the backend's SendRawTransaction. *)
 Inductive answer :=
-| AAccept            (* no error *)
-| AInMempool         (* chain.ErrTxAlreadyInMempool *)
-| AKnown             (* chain.ErrTxAlreadyKnown *)
-| AConfirmed         (* chain.ErrTxAlreadyConfirmed *)
-| AReject.           (* any other error *)
+| AAccept                    (* no error *)
+| AInMempool                 (* class: the backend already has it in its mempool *)
+| AKnown                     (* class: already known (in the block chain, testmempoolaccept wording) *)
+| AConfirmed                 (* class: already confirmed *)
+| AReject                    (* class: rejected for any other reason; as an answer: an error that Is no sentinel *)
+| ASentinel (name : string). (* an error that Is chain.<name> *)
 
 Global Instance answer_eq_dec : EqDecision answer.
 Proof. solve_decision. Defined.
 
+Definition answer_eqb (a b : answer) : bool := bool_decide (a = b).
+
+(** association lists keyed by strings *)
+Fixpoint assoc {A} (k : string) (l : list (string * A)) : option A :=
+  match l with
+  | [] => None
+  | (k', v) :: l' => if String.eqb k' k then Some v else assoc k l'
+  end.
+
+(** The class the property gives to every exported error sentinel of package
+    chain (chain/errors.go and the other files of the package; doc comments
+    there).  Hand-written; compared with the regenerated list. *)
+Definition sentinel_classes : list (string * answer) :=
+  [ ("ErrBitcoindClientShuttingDown", AReject); ("ErrBitcoindStartTimeout", AReject);
+    ("ErrBackendVersion", AReject); ("ErrInvalidParam", AReject); ("ErrUndefined", AReject);
+    ("ErrUnimplemented", AReject);
+    ("ErrMissingInputsOrSpent", AReject); ("ErrMaxBurnExceeded", AReject); ("ErrMaxFeeExceeded", AReject);
+    ("ErrTxAlreadyKnown", AKnown); ("ErrTxAlreadyConfirmed", AConfirmed);
+    ("ErrMempoolConflict", AReject); ("ErrReplacementAddsUnconfirmed", AReject); ("ErrInsufficientFee", AReject);
+    ("ErrTooManyReplacements", AReject); ("ErrMempoolMinFeeNotMet", AReject); ("ErrConflictingTx", AReject);
+    ("ErrEmptyOutput", AReject); ("ErrEmptyInput", AReject); ("ErrTxTooSmall", AReject);
+    ("ErrDuplicateInput", AReject); ("ErrEmptyPrevOut", AReject); ("ErrBelowOutValue", AReject);
+    ("ErrNegativeOutput", AReject); ("ErrLargeOutput", AReject); ("ErrLargeTotalOutput", AReject);
+    ("ErrScriptVerifyFlag", AReject); ("ErrTooManySigOps", AReject); ("ErrInvalidOpcode", AReject);
+    ("ErrTxAlreadyInMempool", AInMempool);
+    ("ErrMissingInputs", AReject); ("ErrOversizeTx", AReject); ("ErrCoinbaseTx", AReject);
+    ("ErrNonStandardVersion", AReject); ("ErrNonStandardScript", AReject); ("ErrBareMultiSig", AReject);
+    ("ErrScriptSigNotPushOnly", AReject); ("ErrScriptSigSize", AReject); ("ErrTxTooLarge", AReject);
+    ("ErrDust", AReject); ("ErrMultiOpReturn", AReject); ("ErrNonFinal", AReject); ("ErrNonBIP68Final", AReject);
+    ("ErrSameNonWitnessData", AReject); ("ErrNonMandatoryScriptVerifyFlag", AReject) ].
+
+(** a name that is not a sentinel of the package: errors.Is is false for every
+    test of publishTransaction, the class is "any other reason" *)
+Definition sentinel_class (n : string) : answer := default AReject (assoc n sentinel_classes).
+
+(** the class of an answer: one of AAccept AInMempool AKnown AConfirmed AReject *)
+Definition class_of (a : answer) : answer :=
+  match a with
+  | ASentinel n => match sentinel_class n with ASentinel _ | AAccept => AReject | c => c end
+  | _ => a
+  end.
+
+Definition is_rejection (a : answer) : bool := answer_eqb (class_of a) AReject.
+Definition is_mempool (a : answer) : bool :=
+  match class_of a with AAccept | AInMempool => true | _ => false end.
+Definition is_known (a : answer) : bool :=
+  match class_of a with AKnown | AConfirmed => true | _ => false end.
+
 (** What a branch of the code does: call RemoveUnminedTx? return an error? *)
 Record action := { act_removes : bool; act_error : bool }.
+
+Global Instance action_eq_dec : EqDecision action.
+Proof. solve_decision. Defined.
 
 Record pcfg := {
   cfg_notify : action;                  (* branch after a failed NotifyReceived *)
   cfg_class : answer → action;          (* branch per SendRawTransaction answer *)
 }.
+
+(** A configuration given by the five branches of publishTransaction ([base])
+    and, per sentinel name, the branch an error that Is this sentinel takes
+    ([tbl], regenerated from the source).  A name outside the table matches no
+    test: the rejection path. *)
+Definition table_class (base : answer → action) (tbl : list (string * action)) (a : answer) : action :=
+  match a with
+  | ASentinel n => default (base AReject) (assoc n tbl)
+  | _ => base a
+  end.
 
 (** Result of a publish call: (txid, nil) / error.  [PFuel] = the explicit
     fuel of [remove_conflict] ran out (shown unreachable in PublishProofs.v). *)
@@ -128,10 +211,10 @@ Definition drop_err : action := {| act_removes := true; act_error := true |}.
 Definition keep_err : action := {| act_removes := false; act_error := true |}.
 
 Definition expected_class (a : answer) : action :=
-  match a with
+  match class_of a with
   | AAccept | AInMempool => keep_ok
   | AKnown | AConfirmed => drop_ok
-  | AReject => drop_err
+  | AReject | ASentinel _ => drop_err
   end.
 
 (** every error path removes what was recorded *)
@@ -146,11 +229,11 @@ Definition pinned_cfg : pcfg := {| cfg_notify := keep_err; cfg_class := expected
 (** the transaction stays recorded exactly when the subscription succeeded and
     the backend has it in its mempool (just accepted, or already there) *)
 Definition stays (a : answer) (notify_ok : bool) : bool :=
-  notify_ok && match a with AAccept | AInMempool => true | _ => false end.
+  notify_ok && is_mempool a.
 
 (** the attempt failed: error returned to the caller *)
 Definition failed (a : answer) (notify_ok : bool) : bool :=
-  negb notify_ok || match a with AReject => true | _ => false end.
+  negb notify_ok || negb (is_mempool a || is_known a).
 
 Definition expected_result (a : answer) (notify_ok : bool) : presult :=
   if failed a notify_ok then PError else PSuccess.
@@ -183,3 +266,139 @@ Fixpoint spec_resend_list (cfg : pcfg) (U : universe) (l : list txid) (answers :
     transaction the wallet has just authored). *)
 Definition fresh (U : universe) (F : facts) (t : txid) : bool :=
   negb (known F t) && forallb (fun c => negb (spends_output_of U c t)) (elements (f_unconf F)).
+
+(** ** What the property TEXT demands of a configuration
+
+    The text fixes the outcome of acceptance / already-in-mempool (stays,
+    counted once) and of a failure (rejection, or the hand-over fails and an
+    error is returned: forgotten).  For "already known / already confirmed"
+    it demands nothing beyond "an error returned means forgotten": keeping the
+    transaction and reporting success, or forgetting it (with or without an
+    error) are all compatible with it.  [text_cfg code] is the expected
+    configuration with that freedom resolved the way the code resolves it -
+    unless the code keeps the transaction AND returns an error, which the
+    text excludes. *)
+Definition admissible_known (act : action) : bool := negb (act_error act && negb (act_removes act)).
+
+(** [a]: the answer as publishTransaction sees it (after the error mapping);
+    [truth]: what the backend meant.  The text decides by the truth; on
+    "already known / confirmed" it accepts what the code does with [a]. *)
+Definition text_action (code : pcfg) (a truth : answer) : action :=
+  if is_known truth then (if admissible_known (cfg_class code a) then cfg_class code a else drop_err)
+  else expected_class truth.
+
+Definition text_cfg (code : pcfg) : pcfg :=
+  {| cfg_notify := drop_err; cfg_class := fun a => text_action code a a |}.
+
+(** the facts the text asks for after an attempt / a re-broadcast, when the
+    answers seen by the wallet ([a]) and their truths may differ (a node's
+    reply that the error mapping put into another class) *)
+Definition spec_publish_text (code : pcfg) (U : universe) (F : facts) (t : txid) (a truth : answer)
+           (notify_ok : bool) : facts :=
+  let F1 := spec_seen U F t in
+  spec_finish (if notify_ok then text_action code a truth else drop_err) U F1 t.
+
+Definition text_result (code : pcfg) (a truth : answer) (notify_ok : bool) : presult :=
+  if act_error (if notify_ok then text_action code a truth else drop_err) then PError else PSuccess.
+
+Fixpoint spec_resend_text (code : pcfg) (U : universe) (l : list txid) (answers truths : list answer)
+         (F : facts) : facts :=
+  match l with
+  | [] => F
+  | t :: l' =>
+    spec_resend_text code U l' (tl answers) (tl truths)
+      (spec_finish (text_action code (hd AAccept answers) (hd AAccept truths)) U F t)
+  end.
+
+(** the action of the branch taken, and the value it returns *)
+Definition branch_of (cfg : pcfg) (a : answer) (notify_ok : bool) : action :=
+  if notify_ok then cfg_class cfg a else cfg_notify cfg.
+Definition cfg_result (cfg : pcfg) (a : answer) (notify_ok : bool) : presult :=
+  if act_error (branch_of cfg a notify_ok) then PError else PSuccess.
+
+(** ** MapRPCErr (chain/btcd.go, bitcoind_client.go, neutrino.go) and
+    matchErrStr (chain/errors.go) *)
+
+Definition lower_char (c : ascii) : ascii :=
+  let n := N_of_ascii c in
+  if ((65 <=? n) && (n <=? 90))%N then ascii_of_N (n + 32) else c.
+
+Definition norm_char (c : ascii) : ascii := if Ascii.eqb c "-" then " "%char else lower_char c.
+
+Fixpoint norm (s : string) : string :=
+  match s with
+  | EmptyString => EmptyString
+  | String c s' => String (norm_char c) (norm s')
+  end.
+
+Fixpoint contains (sub s : string) : bool :=
+  String.prefix sub s || match s with EmptyString => false | String _ s' => contains sub s' end.
+
+(** matchErrStr(err, key) with err.Error() = msg *)
+Definition match_err_str (msg key : string) : bool := contains (norm key) (norm msg).
+
+Inductive backend := BBitcoind | BBtcd | BBtcdOld | BNeutrino.
+
+Global Instance backend_eq_dec : EqDecision backend.
+Proof. solve_decision. Defined.
+
+(** the tables: (text, sentinel name) *)
+Record map_tables := {
+  mt_bitcoind : list (string * string);      (* RPCErr(i).Error(), i = 0 .. errSentinel-1, in this order *)
+  mt_bitcoind28 : list (string * string);    (* Bitcoind28ErrMap *)
+  mt_btcd : list (string * string);          (* BtcdErrMap *)
+  mt_btcd_pre : list (string * string);      (* BtcdErrMapPre2402 *)
+}.
+
+Definition all_tables (T : map_tables) : list (list (string * string)) :=
+  [mt_bitcoind T; mt_bitcoind28 T; mt_btcd T; mt_btcd_pre T].
+
+(** the sentinels of the rows whose key occurs in the text *)
+Definition hits (msg : string) (tbl : list (string * string)) : list string :=
+  map snd (List.filter (fun r => match_err_str msg r.1) tbl).
+
+Definition undefined_name : string := "ErrUndefined".
+
+(** the sentinels MapRPCErr of the backend can return for a node's text (the
+    result wraps ErrUndefined when nothing matches) *)
+Definition map_candidates (T : map_tables) (b : backend) (msg : string) : list string :=
+  match b with
+  | BBitcoind =>
+    match hits msg (mt_bitcoind T) with
+    | x :: _ => [x]
+    | [] => match hits msg (mt_bitcoind28 T) with [] => [undefined_name] | l => l end
+    end
+  | BBtcd => match hits msg (mt_btcd T) with [] => [undefined_name] | l => l end
+  | BBtcdOld | BNeutrino =>
+    match hits msg (mt_btcd T) with
+    | [] => match hits msg (mt_btcd_pre T) with [] => [undefined_name] | l => l end
+    | l => l
+    end
+  end.
+
+(** The texts by which a node says "I have this transaction already", with
+    the class (hand-written: chain/errors.go's tables at the time of writing,
+    btcd mempool.go / bitcoind validation.cpp wording).  Every other key of
+    the tables is a rejection. *)
+Definition accepting_texts : list (string * answer) :=
+  [ ("txn already in mempool", AInMempool);
+    ("already have transaction in mempool", AInMempool);
+    ("already have transaction", AInMempool);
+    ("txn already known", AKnown);
+    ("database contains entry for spent tx output", AKnown);
+    ("Transaction already in block chain", AConfirmed);
+    ("transaction outputs already in utxo set", AConfirmed);
+    ("transaction already exists in blockchain", AConfirmed);
+    ("transaction already exists", AConfirmed) ].
+
+Definition text_class (key : string) : answer := default AReject (assoc key accepting_texts).
+
+(** a table maps every key to a sentinel of the key's class *)
+Definition table_respects (tbl : list (string * string)) : bool :=
+  forallb (fun r => answer_eqb (sentinel_class r.2) (text_class r.1)) tbl.
+
+Definition tables_respect (T : map_tables) : bool := forallb table_respects (all_tables T).
+
+(** the text contains none of the accepting texts *)
+Definition plain_rejection_text (msg : string) : bool :=
+  forallb (fun p => negb (match_err_str msg p.1)) accepting_texts.
